@@ -41,3 +41,6 @@ claim("C19", "Bounded stand-in only so far (labelled bounded): npz / load_data /
       level="exploration", note="Bounded run-time contract check, not a proof. Checkpoint restore runs inside Lightning/torch.load: no contract within reach decides it deductively.")
 claim("C20", "Proof of the representation invariant of RewardScaler (count, mean, M2 against n, sum, sum of squares) for any batch size (batched Welford, non-linear real arithmetic), of the four output transformations, of the EMA recurrence and of the warm-up convex combination and its schedule.",
       not_covered=["accumulated float32 error (A1)"])
+claim("C15", "Proof that the 8 dihedral maps and the rotation/reflection with arbitrary angle preserve squared distances between any two points of an instance (polynomial identities, NRA; cos^2+sin^2=1 assumed), that copy 0 is the identity, that StateAugmentation places copy a of instance b at row a*B+b; and that the augmentation / multi-start / combined evaluators compute rewards on the original instance of each row and return, per instance, the maximum over its own candidates with the actions of that candidate.",
+      not_covered=["float32 rounding (A1)", "SamplingEval / GreedyEval delegate to the policy (stand-in)", "EvalBase.__call__ concatenation (stand-in)"],
+      assumptions=["cos^2+sin^2=1, cos 0=1, sin 0=0 for the uninterpreted trigonometric functions"])
